@@ -71,7 +71,7 @@ func runTree(k *mon.Case, withManual bool) {
 	fam := famOf(r)
 	g := chaingen.New(node.NewParams(fam), fam, r)
 	g.MaxTx = 2
-	cache := []uint64{0, 4096, 1 << 30}[r.Intn(3)]
+	cache := []uint64{0, 4096, 1 << 25}[r.Intn(3)]
 	s, err := sim.New(k, g, node.Config{UtxoCacheMaxSize: cache})
 	if err != nil {
 		k.Failf("harness:open", "cannot open node: %v", err)
@@ -166,7 +166,7 @@ func runConcurrent(k *mon.Case) {
 	fam := famOf(r)
 	g := chaingen.New(node.NewParams(fam), fam, r)
 	g.MaxTx = 3
-	s, err := sim.New(k, g, node.Config{UtxoCacheMaxSize: []uint64{0, 2048, 1 << 30}[r.Intn(3)]})
+	s, err := sim.New(k, g, node.Config{UtxoCacheMaxSize: []uint64{0, 2048, 1 << 25}[r.Intn(3)]})
 	if err != nil {
 		k.Failf("harness:open", "cannot open node: %v", err)
 		return
